@@ -27,3 +27,17 @@ Print Assumptions C03_compare_total.
 Theorem C03_unify_fuel_enough : forall (n m : nat) (a b : term), term_size a + term_size b < n -> term_size a + term_size b < m -> pu_fuel n a b = pu_fuel m a b.
 Proof. exact (@pu_fuel_enough). Qed.
 Print Assumptions C03_unify_fuel_enough.
+
+From NGO Require Import Syntax.Ast Model.Cleanup Link.CleanupSpec.
+
+Theorem C03_cleanup_body_loop_terminates : forall (sups : list Mapping) (body : list bodyelem), remove_superseed_body sups body <> OutOfFuel.
+Proof. exact (@remove_superseed_body_no_outoffuel_proof). Qed.
+Print Assumptions C03_cleanup_body_loop_terminates.
+
+Theorem C03_cleanup_condition_loop_terminates : forall (sups : list Mapping) (c : list lit), remove_superseed_cond sups c <> OutOfFuel.
+Proof. exact (@remove_superseed_cond_no_outoffuel_proof). Qed.
+Print Assumptions C03_cleanup_condition_loop_terminates.
+
+Theorem C03_cleanup_loop_shrinks : forall (A : Type) (as_lit : A -> option lit) (eqb : A -> A -> bool) (ss : list Mapping) (l l' : list A) (updated : bool), (forall x : A, In x l -> eqb x x = true) -> _remove_superseed_from_list as_lit eqb ss l = Ok (l', updated) -> (updated = true -> Datatypes.length l' < Datatypes.length l) /\ (updated = false <-> l' = l).
+Proof. exact (@remove_superseed_shrinks_proof). Qed.
+Print Assumptions C03_cleanup_loop_shrinks.
